@@ -20,15 +20,14 @@
   `iter_eq_spec_yearly_bymonth_nth_partial`: nth weekdays counted inside the month (MONTHLY, or YEARLY
   with BYMONTH) or the year (YEARLY without BYMONTH).  And `iter_eq_spec_yearly_easter_partial`: YEARLY with BYEASTER
   offsets −80..250 in 1583..4099, and `iter_eq_spec_yearly_weekno_partial`: YEARLY with BYWEEKNO on the
-  complement of D-C01c (any week start, plain BYDAY allowed).  And `iter_eq_spec_hourly_partial` /
+  complement of D-C01c (any week start, plain BYDAY and BYMONTHDAY allowed).  And `iter_eq_spec_hourly_partial` /
   `iter_eq_spec_minutely_partial` / `iter_eq_spec_secondly_partial`: the three sub-daily frequencies
   without BY lists at or above their own unit (HOURLY: no BYHOUR; MINUTELY: no BYHOUR / BYMINUTE; SECONDLY:
   no BYHOUR / BYMINUTE / BYSECOND), through a refinement with skipping (one turn of the loop may pass over
   several periods of the specification; `n` turns = the first `m` periods, `n ≤ m ≤ 24·n` resp. `1440·n`,
   `86400·n`).  Missing: the sub-daily frequencies with those BY lists (the reachability loops
   `__mod_distance` / `minutelyLoop` / `secondlyLoop` beyond their first pass are only proved monotone so
-  far), BYWEEKNO / BYEASTER for the other frequencies, and mixing nth BYDAY / BYEASTER / BYWEEKNO with BYMONTHDAY (or nth BYDAY / BYEASTER
-  with plain BYDAY).  Everything else below — including
+  far), BYWEEKNO / BYEASTER for the other frequencies, and mixing nth BYDAY with BYMONTHDAY or plain BYDAY (outside D-C01a), BYWEEKNO with BYEASTER, nth BYDAY with either.  Everything else below — including
   `iter_strictMono` for all seven frequencies — is proved for ALL rules / all argument sets, with no
   `Supported` hypothesis (so also inside the known-defect classes).
 -/
@@ -388,9 +387,9 @@ theorem iter_eq_spec_yearly_bymonth_nth_partial (a : Args) (r : Rule) (na : NthY
 
 /-- **`iter_eq_spec`, proved portion, YEARLY with BYEASTER** on the supported class = the complement of
     D-C01d (offsets −80..250) inside the years 1583..4099 where C19 proves `easter.easter` canonical:
-    INTERVAL ≥ 1, valid start, any BYMONTH / BYYEARDAY / BYHOUR / BYMINUTE / BYSECOND / BYSETPOS, any COUNT /
-    UNTIL, no BYMONTHDAY / BYDAY / BYWEEKNO: exactly the specification's recurrence set (Easter by
-    Meeus/Jones/Butcher). -/
+    INTERVAL ≥ 1, valid start, any BYMONTH / BYMONTHDAY (non-zero) / BYYEARDAY / plain BYDAY / BYHOUR / BYMINUTE /
+    BYSECOND / BYSETPOS, any COUNT / UNTIL, no nth BYDAY / BYWEEKNO: exactly the specification's recurrence
+    set (Easter by Meeus/Jones/Butcher). -/
 theorem iter_eq_spec_yearly_easter_partial (a : Args) (r : Rule) (ea : EasterYArgs a) (h : construct a = .ok r)
     (n : Nat) (hlo : 1583 ≤ a.dtstart.y) (hy : a.dtstart.y + n * a.interval ≤ 4099) :
     (iter r n).1 = Spec.RRule.occ a n :=
@@ -398,8 +397,8 @@ theorem iter_eq_spec_yearly_easter_partial (a : Args) (r : Rule) (ea : EasterYAr
 
 /-- **`iter_eq_spec`, proved portion, YEARLY with BYWEEKNO** on the complement of D-C01c (a listed 52/53
     comes with −1, a listed −52/−53 comes with 1): INTERVAL ≥ 1, valid start, any week start, any BYMONTH /
-    BYYEARDAY / plain BYDAY / BYHOUR / BYMINUTE / BYSECOND / BYSETPOS, any COUNT / UNTIL, no BYMONTHDAY /
-    nth BYDAY / BYEASTER: exactly the specification's recurrence set, every year up to 9999. -/
+    BYMONTHDAY (non-zero) / BYYEARDAY / plain BYDAY / BYHOUR / BYMINUTE / BYSECOND / BYSETPOS, any COUNT /
+    UNTIL, no nth BYDAY / BYEASTER: exactly the specification's recurrence set, every year up to 9999. -/
 theorem iter_eq_spec_yearly_weekno_partial (a : Args) (r : Rule) (wa : WeeknoYArgs a) (h : construct a = .ok r)
     (n : Nat) (hy : a.dtstart.y + n * a.interval ≤ 9999) :
     (iter r n).1 = Spec.RRule.occ a n :=
@@ -493,17 +492,24 @@ example : dates (construct { freq := 0, dtstart := dt 2024 1 1 12, bymonth := so
 
 -- an EasterYArgs instance: Easter Monday and Ascension Day every year
 example : EasterYArgs { freq := 0, dtstart := dt 2024 1 1 10, byeaster := some [1, 39] } :=
-  ⟨rfl, by decide, by decide, rfl, rfl, rfl, ⟨[1, 39], rfl, by decide, by decide⟩⟩
+  ⟨rfl, by decide, by decide, rfl, by intro x hx; simp at hx, by intro w hw; simp at hw,
+   ⟨[1, 39], rfl, by decide, by decide⟩⟩
+-- … and mixed with plain BYDAY / BYMONTHDAY: Easter Sundays falling on the 31st of March
+example : EasterYArgs { freq := 0, dtstart := dt 2024 1 1 10, byeaster := some [0], byweekday := some [(6, 0)],
+                        bymonthday := some [31] } :=
+  ⟨rfl, by decide, by decide, rfl, by decide, by decide, ⟨[0], rfl, by decide, by decide⟩⟩
 example : dates (construct { freq := 0, dtstart := dt 2024 1 1 10, byeaster := some [1, 39] }) 2
     = [(2024, 4, 1), (2024, 5, 9), (2025, 4, 21), (2025, 5, 29)] := by decide +kernel
 
 -- a WeeknoYArgs instance (RFC 5545: "Monday of week number 20"), and one with the last week and week 53 / −1
 example : WeeknoYArgs { freq := 0, dtstart := dt 1997 5 12 9, byweekno := some [20], byweekday := some [(0, 0)] } :=
-  ⟨rfl, by decide, by decide, by decide, rfl, rfl, by decide, ⟨[20], rfl, by decide, ⟨by decide, by decide⟩⟩⟩
+  ⟨rfl, by decide, by decide, by decide, by intro x hx; simp at hx, rfl, by decide,
+   ⟨[20], rfl, by decide, ⟨by decide, by decide⟩⟩⟩
 example : dates (construct { freq := 0, dtstart := dt 1997 5 12 9, byweekno := some [20], byweekday := some [(0, 0)] }) 3
     = [(1997, 5, 12), (1998, 5, 11), (1999, 5, 17)] := by decide +kernel
-example : WeeknoYArgs { freq := 0, dtstart := dt 2020 1 1, wkst := some 6, byweekno := some [53, -1, 1] } :=
-  ⟨rfl, by decide, by decide, by decide, rfl, rfl, by intro w hw; simp at hw,
+example : WeeknoYArgs { freq := 0, dtstart := dt 2020 1 1, wkst := some 6, byweekno := some [53, -1, 1],
+                        bymonthday := some [1, -1] } :=
+  ⟨rfl, by decide, by decide, by decide, by decide, rfl, by intro w hw; simp at hw,
    ⟨[53, -1, 1], rfl, by decide, ⟨by decide, by decide⟩⟩⟩
 
 -- an HourlyArgs instance: every 5 hours on Mondays at :00 and :30 — one turn per removed day (Tue..Sun)
